@@ -53,11 +53,46 @@ def spec_copy(wd, tag="x"):
 
 # ------------------------------------------------------------------ TLC
 
+class EdgeList:
+    """Edges exported by TLC, kept as raw JSON text (a parsed edge is ~10x bigger) and parsed on
+    access; behaves like a read-only list of dicts."""
+
+    def __init__(self):
+        self.raw = []
+
+    def append_raw(self, text):
+        self.raw.append(text)
+
+    def __len__(self):
+        return len(self.raw)
+
+    def __bool__(self):
+        return bool(self.raw)
+
+    def __getitem__(self, i):
+        if isinstance(i, slice):
+            return [json.loads(x) for x in self.raw[i]]
+        return json.loads(self.raw[i])
+
+    def __iter__(self):
+        for x in self.raw:
+            yield json.loads(x)
+
+    @staticmethod
+    def split(text):
+        """(from, middle, to) keys of one edge record {from, act, ..., to}.  TLC does not print the
+        fields of (nested) records in a stable order, so the keys are digests of the canonical
+        (sorted-keys) JSON, not raw substrings."""
+        e = json.loads(text)
+        h = lambda x: hashlib.md5(canon(x).encode()).digest()
+        return h(e["from"]), h({k: v for k, v in e.items() if k not in ("from", "to")}), h(e["to"])
+
+
 class TLCResult:
     def __init__(self):
         self.exit = None; self.out = ""; self.generated = 0; self.distinct = 0
         self.depth = 0; self.wall = 0.0; self.violated = None; self.error = None
-        self.edges = []; self.prints = []; self.cmd = ""
+        self.edges = EdgeList(); self.prints = []; self.cmd = ""
 
     def ok(self):
         return self.exit == 0
@@ -91,7 +126,7 @@ def run_tlc(wd, module, cfg, workers="8", timeout=600, env=None, extra=None, deq
         for line in fi:
             if line.startswith('"EDGE '):
                 try:
-                    r.edges.append(json.loads(json.loads(line)[5:]))
+                    r.edges.append_raw(json.loads(line)[5:])
                 except Exception as ex:
                     raise Infra("bad EDGE line: %s (%s)" % (line[:200], ex))
                 continue
@@ -155,17 +190,22 @@ def path_cover(edges, max_paths=None, rng=None, max_len=60):
     if not edges:
         return []
     sid = {}
-    def ident(x):
-        k = canon(x)
+    def ident(k):
         v = sid.get(k)
         if v is None:
             v = sid[k] = len(sid)
         return v
     E = []          # (from id, to id, edge index), distinct edges only
     seen_e = set()
-    for i, e in enumerate(edges):
-        f, t_ = ident(e["from"]), ident(e["to"])
-        k = (f, canon(e["act"]), t_)
+    raw = edges.raw if isinstance(edges, EdgeList) else None
+    for i in range(len(edges)):
+        if raw is not None:
+            fk, mk, tk = EdgeList.split(raw[i])
+        else:
+            e = edges[i]
+            fk, mk, tk = canon(e["from"]), canon(e["act"]), canon(e["to"])
+        f, t_ = ident(fk), ident(tk)
+        k = (f, mk, t_)
         if k in seen_e:
             continue
         seen_e.add(k)
@@ -216,10 +256,16 @@ def path_cover(edges, max_paths=None, rng=None, max_len=60):
 
 
 def graph_stats(edges):
-    states = set()
-    for e in edges:
-        states.add(canon(e["from"])); states.add(canon(e["to"]))
-    return len(states), len({canon([e["from"], e["act"], e["to"]]) for e in edges})
+    states = set(); es = set()
+    raw = edges.raw if isinstance(edges, EdgeList) else None
+    for i in range(len(edges)):
+        if raw is not None:
+            fk, mk, tk = EdgeList.split(raw[i])
+        else:
+            e = edges[i]
+            fk, mk, tk = canon(e["from"]), canon(e["act"]), canon(e["to"])
+        states.add(fk); states.add(tk); es.add((fk, mk, tk))
+    return len(states), len(es)
 
 
 # ------------------------------------------------------------------ Go harness
